@@ -1,1 +1,37 @@
-let () = run_cases2 run_case
+(* C04 driver: the shared PVM cases (pvmdrv.ml) plus the transfer-gas stream *)
+let zi = fun i -> z_of_za (ZA.of_int i)
+let xfer_blob (dest_exists : bool) (amount : int) (l : ZA.t) : n list =
+  let le v n = List.init n (fun i -> ZA.to_int (ZA.logand (ZA.shift_right v (8 * i)) (ZA.of_int 255))) in
+  let ins = [ [ 0 ]; [ 1 ]; [ 1 ]; [ 1 ]; [ 1 ];
+              [ 51; 7 ] @ le (ZA.of_int (if dest_exists then 88 else 99)) 4;
+              [ 51; 8 ] @ le (ZA.of_int amount) 4;
+              [ 20; 9 ] @ le l 8;
+              [ 51; 10 ] @ le (ZA.of_int 0x20000) 4;
+              [ 10; 20 ]; [ 51; 7; 0 ]; [ 51; 8; 0 ]; [ 50; 0 ] ] in
+  let code = List.concat ins in
+  let mask = List.concat (List.map (fun i -> List.mapi (fun k _ -> k = 0) i) ins) in
+  let n = List.length code in
+  let mb = Array.make ((n + 7) / 8) 0 in
+  List.iteri (fun i b -> if b then mb.(i / 8) <- mb.(i / 8) lor (1 lsl (i mod 8))) mask;
+  (enc_nat N0) @ [ N0 ] @ enc_nat (n_of_int n) @ List.map n_of_int code @ List.map n_of_int (Array.to_list mb)
+let xfer_model toks impl =
+  match toks with
+  | [ "xfer"; limit; de; minmemo; balance; amount; l ] -> (
+    (* the sender's threshold is taken from the implementation's output (an oracle input of the model) *)
+    let thr = try List.find (fun t -> String.length t > 4 && String.sub t 0 4 = "thr=") (split_ws impl) with Not_found -> "thr=0" in
+    let thrz = z_of_string (String.sub thr 4 (String.length thr - 4)) in
+    let lz = ZA.of_string l in
+    let cls = classify_xfer (de = "1") (z_of_string minmemo) (z_of_za lz) (z_of_string balance) (z_of_string amount) thrz in
+    match deblob (xfer_blob (de = "1") (int_of_string amount) lz) with
+    | None -> "deblob-panic"
+    | Some p ->
+      let m = { m_pages = [ (zi 0x20, { p_acc = AccRW; p_dat = [] }); (zi 0xFEFDF, { p_acc = AccRW; p_dat = [] }) ];
+                m_hp = zi 0x21000; m_hl = z_of_string "4277006336" } in
+      let r = List.map z_of_string [ "4294901760"; "4278059008"; "0"; "0"; "0"; "0"; "0"; "4278124544"; "3"; "0"; "0"; "0"; "0" ] in
+      match invoke (host_tab_xfer cls (z_of_za lz)) big_fuel p (zi 5) r m (z_of_string limit) with
+      | None -> "FUEL"
+      | Some ((((e, _), _), _), used) ->
+        let kept = match e, cls with Halt, XOk -> 1 | _ -> 0 in
+        Printf.sprintf "%s %d %s" (string_of_z used) kept thr)
+  | _ -> run_case toks impl
+let () = run_cases2 xfer_model
